@@ -728,7 +728,6 @@ func (d *dealer) syncCall(caller *wamp.Session, msg *wamp.Call) {
 					reg.nextCallee = 0
 				}
 				callee = reg.callees[reg.nextCallee]
-				reg.nextCallee++
 			case wamp.InvokeRandom:
 				callee = reg.callees[d.prng.Int63n(int64(len(reg.callees)))]
 			case wamp.InvokeLast:
@@ -857,7 +856,11 @@ func (d *dealer) syncCall(caller *wamp.Session, msg *wamp.Call) {
 		}
 
 		// Generate the invocationID now that it is certain that the invocation
-		// will be sent.
+		// will be sent. Only now has the callee had its turn in a round-robin
+		// rotation: a call that was refused above does not consume a turn.
+		if reg.policy == wamp.InvokeRoundRobin && len(reg.callees) > 1 {
+			reg.nextCallee++
+		}
 		invocationID = callee.IDGen.Next()
 		invkReqID := requestID{
 			session: callee.ID,
